@@ -29,7 +29,8 @@ import mcnpref
 from common import cstr, clist, cpair, cz, cn, copt, cbool
 
 THEOREMS = ['C11_inverse_den', 'C11_inverse_complcell_rejects',
-            'C11_pot_complement_den', 'C11_pot_complement_lattice_empty',
+            'C11_pot_complement_den', 'C11_eliminate_all_den',
+            'C11_pot_complement_lattice_empty',
             'C11_parse_print_tokens', 'C11_lex_render',
             'C11_parse_print_canonical', 'C11_parse_print',
             'C11_layout_exists', 'C11_pipeline',
@@ -553,6 +554,27 @@ def impl_complement_loop(table_texts):
     return outs
 
 
+def impl_loop_abort(table_texts, lattice_ids):
+    '''the same loop as the converter runs it: the first exception aborts.
+    ('ok', [(cell, tree) in dictionary order]) | ('err', kind)'''
+    from t4_geom_convert.Kernel.Volume.CellConversion import CellConversion
+    cells = make_cells(table_texts, lattice_ids)
+    conv = CellConversion(1000, 1000, {}, {}, {}, cells)
+    try:
+        for key in cells:
+            new_geom = conv.pot_complement(cells[key].geometry)
+            cells[key].geometry = new_geom
+    except AttributeError:
+        return ('err', 'EAttribute')
+    except KeyError:
+        return ('err', 'EKey')
+    except RecursionError:
+        return ('err', 'EFuel')
+    except AssertionError:
+        return ('err', 'EAssert')
+    return ('ok', [(key, canon(cells[key].geometry)) for key in cells])
+
+
 # ---- the run ---------------------------------------------------------------
 
 class Cases:
@@ -918,6 +940,7 @@ def gen_table(rng):
 
 def run_complement(res, rng, n_tab):
     cases, meta = [], []
+    loop_cases, loop_meta = [], []
     for i in range(n_tab):
         ids, exprs = gen_table(rng)
         lattice = {cid for cid in ids[:-1] if rng.random() < 0.1}
@@ -940,6 +963,21 @@ def run_complement(res, rng, n_tab):
                       for cid in ids)
         cases.append(cpair(table, coq_ast(parsed[target]), coq_res(out)))
         meta.append((texts, sorted(lattice), target, out))
+        # the whole loop, table in dictionary order (not when a lattice cell
+        # itself complements a cell: extract_surfaces_list is then fed a list)
+        if not any('#c' in repr(exprs[cid]) for cid in lattice):
+            lout = impl_loop_abort(texts, lattice)
+            ltable = clist(cpair(cn(cid), f'(mkCell {coq_ast(parsed[cid])} '
+                                          f'{cbool(cid in lattice)})')
+                           for cid in order)
+            if lout[0] == 'ok':
+                want = '(Ok ' + clist(cpair(cn(cid), coq_ast(tree))
+                                      for cid, tree in lout[1]) + ')'
+            else:
+                want = f'(Err {lout[1]})'
+            loop_cases.append(cpair(ltable, want))
+            loop_meta.append((texts, sorted(lattice), lout))
+            res.count('loop:' + (lout[0] if lout[0] == 'ok' else lout[1]))
         res.seen((sorted(texts.items()), sorted(lattice), target))
         res.count('complement:' + (out[0] if out[0] == 'ok' else out[1])
                   + (':lattice' if lattice else '')
@@ -987,6 +1025,23 @@ def run_complement(res, rng, n_tab):
     res.obligation(f'tie:complement ({len(cases)} cell tables)',
                    not bad and not errs,
                    f'{len(bad)} disagreements {errs[:1]}')
+    lbad, lerrs = common.run_case_files(
+        'c11_loop', HEADER, 'list (N * cell) * res (list (N * ast))',
+        'check_loop', loop_cases, chunk=100)
+    res.obligation(f'tie:loop ({len(loop_cases)} cell tables through the '
+                   'in-place loop of construct_volume vs Model.eliminate_all)',
+                   not lbad and not lerrs,
+                   f'{len(lbad)} disagreements {lerrs[:1]}')
+    for idx in lbad[:8]:
+        texts, lat, lout = loop_meta[idx]
+        res.violation('correspondence',
+                      f'complement loop on {texts} (lattice {lat}): '
+                      f'implementation {lout}',
+                      {'input': {'cells': texts, 'lattice': lat,
+                                 'target': next(iter(texts))},
+                       'observed': lout,
+                       'theorem_or_correspondence': 'tie:loop'},
+                      found_input=False)
     for idx in bad[:8]:
         texts, lat, target, out = meta[idx]
         res.violation('correspondence',
@@ -1050,6 +1105,7 @@ def replay(path):
         import MIP.geom.parsegeom as pg
         print('normalize:', repr(pg.normalize(inp['text'])))
         print('implementation:', impl_get_ast(inp['text']))
+        print('reference reader:', c11_refparse.parse(inp['text']))
         model, _ = common.coq_eval(HEADER, f'get_ast {cstr(inp["text"])}')
         print('model:', model)
     if 'cells' in inp:
